@@ -485,6 +485,7 @@ structure Ops (σ : Type) where
   isArr : σ → Bool                    -- isArray(thisObject)
   lenRead : M σ Unit                  -- what reading `length` does besides yielding `len` (valueOf of an object-valued length)
   conv : Val → M σ Val                -- an argument to a primitive (Value.number() / Value.string() of an object runs script)
+  thisRaw : σ → Val                   -- call.This as passed: `recv` for an object, the primitive itself for a primitive receiver
 
 /-- a value returned by a builtin -/
 inductive Ret where
@@ -649,7 +650,7 @@ def reverseStep (lower upper : Nat) : M σ Unit := fun s =>
 
 def reverseCore (length : Nat) : M σ Ret := fun s =>
   let middle := length / 2
-  (do forUp (fun lower => reverseStep O lower (length - lower - 1)) 0 middle; pure (Ret.val .recv)) s
+  (do forUp (fun lower => reverseStep O lower (length - lower - 1)) 0 middle; pure (Ret.val (O.thisRaw s))) s     -- return call.This
 
 def reverse : M σ Ret := do
   let length ← readLen O
@@ -682,6 +683,10 @@ def join (args : List Val) : M σ Ret := do
       pure (args.set 0 (.str (E.ts p))))       -- separator = argument.string()
     else pure args
   joinCore O E length pargs
+
+/-- builtinArrayToString (builtin_array.go:29): `join.call(call.This, call.ArgumentList, …)` — the arguments of
+    toString are handed on to join (the case of a non-callable `join` is not modelled) -/
+def toStringM (args : List Val) : M σ Ret := join O E args
 
 /-- an argument of concat: a primitive / non-array value, or an array given by its elements as
     [[HasProperty]]/[[Get]] see them (`none` = absent) -/
@@ -953,8 +958,8 @@ def sortQuick (cmp : SortCmp) : Nat → Nat → Nat → M σ Unit
 /-- builtinArraySort (builtin_array.go:447); `callable` = comparefn is undefined or callable -/
 def sortCore (callable : Bool) (cmp : SortCmp) (length : Nat) : M σ Ret := fun s =>
   if !callable then .err .type s
-  else if length > 1 then (do sortQuick O E cmp length 0 (length - 1); pure (Ret.val .recv)) s
-  else .ok (Ret.val .recv) s
+  else if length > 1 then (do sortQuick O E cmp length 0 (length - 1); pure (Ret.val (O.thisRaw s))) s   -- return call.This
+  else .ok (Ret.val (O.thisRaw s)) s
 
 def sort (callable : Bool) (cmp : SortCmp) : M σ Ret := do
   let length ← readLen O
@@ -985,6 +990,7 @@ structure St where
   rets : List Val := []             -- scripted return values of the callback, consumed in order
   script : List Conv := []          -- scripted conversions, consumed in order by whichever object is converted next
   lenPrim : Option Val := none      -- the primitive an object-valued `length` was converted to by `lenRead`
+  thisRaw : Val := .recv            -- the `this` value of the call: the receiver object, or the primitive it was made from
 deriving Repr, Inhabited
 
 def liftObj {α : Type} (m : M Obj α) : M St α := fun s =>
@@ -1046,5 +1052,23 @@ def modelOps (E : Env) : Ops St where
   lenRead := scriptedLenRead (fun o => objGet o .length)
     (scriptedConv (objectPut E) objectDelete (fun o => toUint32 E (objGet o .length)))
   conv := scriptedConv (objectPut E) objectDelete (fun o => toUint32 E (objGet o .length))
+  thisRaw := fun s => s.thisRaw
+
+/-- `a[k] = v` / Object.defineProperty(a, k, {value: v, …}) when v may be a scripted object: only the length of an
+    array converts its value — arrayUint32 calls Value.number() once (type_array.go:80), after [[Put]]'s CanPut -/
+def stDefine (E : Env) (k : Key) (d : Desc) (throw : Bool) : M St Bool := fun s =>
+  match k, d.v, s.o.isArr with
+  | .length, some (.obj id), true =>
+    ((modelOps E).conv (.obj id) >>= fun p => liftObj (defineOwnProperty E .length { d with v := some p } throw)) s
+  | _, _, _ => liftObj (defineOwnProperty E k d throw) s
+
+def stPut (E : Env) (k : Key) (v : Val) (throw : Bool) : M St Unit := fun s =>
+  match k, v, s.o.isArr with
+  | .length, .obj id, true =>
+    match canPutDetails s.o .length with
+    | (false, _) => if throw then .err .type s else .ok () s
+    | (true, some p) => (do let _ ← stDefine E .length ⟨some (.obj id), some p.w, some p.e, some p.c⟩ throw; pure ()) s
+    | (true, none) => (do let _ ← stDefine E .length ⟨some (.obj id), some true, some true, some true⟩ throw; pure ()) s
+  | _, _, _ => liftObj (objectPut E k v throw) s
 
 end OttoVerif.C08
